@@ -150,6 +150,41 @@ def rwg_sign_rule(ctx):
                        and roles.canon(v.test, defs).replace(" ", "") == roles.expect("E == min(N)", defs, v.lineno, lv=False, E=e, N=nb))
                 ok = one and two and by[True].target == tgt and by[False].target == tgt
                 why = "single supported neighbour -> %s (must be 1); two neighbours -> `%s` (must be 1 if element == min(neighbours) else -1)" % (unparse(by[True].vnode), unparse(v)[:70])
+                # antisymmetry needs both neighbours of an edge to count the SAME list: the elements adjacent to the edge that
+                # are in the support the function returns (the final one), not in a copy taken at another moment
+                SUP = rets[0].value.elts[1].id if len(rets[0].value.elts) == 4 and isinstance(rets[0].value.elts[1], ast.Name) else None
+                lst = nb
+                seen = 0
+                while isinstance(lst, ast.Name) and seen < 5:
+                    dd = defs.lookup(lst.id, nb.lineno)
+                    lst = dd[1] if dd and dd[0] == "expr" else None
+                    seen += 1
+                flt = None
+                if isinstance(lst, ast.ListComp) and len(lst.generators) == 1 and len(lst.generators[0].ifs) == 1 and isinstance(lst.generators[0].target, ast.Name):
+                    g0 = lst.generators[0]
+                    cond = g0.ifs[0]
+                    if isinstance(cond, ast.Subscript) and isinstance(cond.value, ast.Name) and isinstance(cond.slice, ast.Name) and cond.slice.id == g0.target.id and isinstance(lst.elt, ast.Name) and lst.elt.id == g0.target.id:
+                        flt = cond.value.id
+                        pa = arg_names(fn)
+                        edge = roles.expect("EE[L, E]", defs, nb.lineno, lv=False, EE="element_edges" if "element_edges" in pa else pa[3], L=l, E=e)
+                        it = g0.iter
+                        seen = 0
+                        while isinstance(it, ast.Name) and seen < 5:
+                            dd = defs.lookup(it.id, nb.lineno)
+                            it = dd[1] if dd and dd[0] == "expr" else None
+                            seen += 1
+                        it_ok = (isinstance(it, ast.Subscript) and isinstance(it.slice, ast.Slice) and isinstance(it.slice.lower, ast.Subscript)
+                                 and roles.canon(it.slice.lower.slice, defs).replace(" ", "") == edge
+                                 and roles.canon(it, defs).replace(" ", "") == roles.expect("NB[PTR[X]:PTR[1 + X]]", defs, nb.lineno, lv=False, NB=pa[1], PTR=pa[2], X=it.slice.lower.slice))
+                        if not it_ok:
+                            flt = None
+                if flt is not None and flt != SUP:
+                    dd = defs.alloc(flt, nb.lineno)  # a plain alias `x = support` is the same array
+                    if dd and dd[0] == "expr" and isinstance(dd[1], ast.Name) and dd[1].id == SUP:
+                        flt = SUP
+                sup_ok = SUP is not None and flt == SUP
+                ok = ok and sup_ok
+                why += "; neighbour list = elements adjacent to this edge that are in the returned support `%s`: %s (filtered by `%s`)" % (SUP, sup_ok, flt)
     r.check(ok, "_compute_rwg0_space_data", MS, fn.name, line, "rwg sign rule", why)
 
 
